@@ -13,7 +13,7 @@ import re
 import string
 from typing import Dict, List, Optional, Set, Tuple
 
-from sa.core import AnalysisError, Finding, Program, Report, dotted, program, src
+from sa.core import AnalysisError, Finding, Program, Report, dotted, program, src, walk_no_nested
 
 EXC_MOD = "vtlengine.Exceptions"
 CODED = ["SemanticError", "RunTimeError", "DataLoadError", "InputValidationException"]
@@ -203,8 +203,20 @@ def run(rep: Report, tier: str) -> None:
                                 f"to a finite set of strings")
         supplied = set(kw) - RESERVED
         for sp in splats:
+            if isinstance(sp, ast.Name) and f is not None:
+                # **name: the name's single local definition must be a dict literal with constant keys
+                defs_ = [n_.value for n_ in walk_no_nested(f.node) if isinstance(n_, (ast.Assign, ast.AnnAssign)) and getattr(n_, "value", None) is not None
+                         and any(isinstance(t_, ast.Name) and t_.id == sp.id for t_ in (n_.targets if isinstance(n_, ast.Assign) else [n_.target]))]
+                if len(defs_) == 1:
+                    sp = defs_[0]
             if isinstance(sp, ast.Dict) and all(isinstance(k, ast.Constant) for k in sp.keys):
-                supplied |= {k.value for k in sp.keys}  # type: ignore[union-attr]
+                keys_ = {k.value for k in sp.keys}  # type: ignore[union-attr]
+                dup_ = sorted((keys_ & set(kw)) | {k_ for k_ in keys_ if sum(1 for s2 in splats if isinstance(s2, ast.Dict) and any(isinstance(q, ast.Constant) and q.value == k_ for q in s2.keys)) > 1})
+                if dup_:
+                    rep.add(Finding("R26.2", f"R26.2/{fname}/duplicate-keyword/{','.join(map(str, dup_))}", m.rel, call.lineno, fname,
+                                    f"{kind}(…) receives the keyword(s) {dup_} twice (explicitly and through the ** dictionary): Python raises TypeError "
+                                    f"`got multiple values for keyword argument` before the VTL error is built"))
+                supplied |= keys_
             else:
                 raise AnalysisError(f"{m.rel}:{call.lineno} {fname}: **{src(sp)} splat in coded exception call "
                                     f"is not a dict literal")
